@@ -140,6 +140,9 @@ def receive_config(prog: Program) -> Config:
         prog.cls(c)
         cfg.none_fields.add((c, f))
     cfg.div_all_modules = {"rate"}
+    # the SRTP receive session exists only after a successful handshake + identity check
+    prog.cls("rtcdtlstransport.RTCDtlsTransport")
+    cfg.none_deref_fields.add(("rtcdtlstransport.RTCDtlsTransport", "_rx_srtp"))
     # conditional invariant, checked at every writer: _sack_needed is only set once the peer's TSN is known
     cfg.guard_implies.append(("rtcsctptransport.RTCSctpTransport", "_sack_needed", "_last_received_tsn"))
     # RTCIceTransport._recv is bound to aioice's Connection.recv: its result is the received datagram
